@@ -145,9 +145,6 @@ func c03List(tier string) []c03Params {
 							if ti == 0 && !(off < 30 || off%13 == rec%13 || ccs[off]) {
 								continue
 							}
-							if ti == 1 && L > 600 && off%3 != 0 {
-								continue
-							}
 							for _, mk := range []byte{0x01, 0xff} {
 								out = append(out, c03Params{c03Mode: m, DF: []simnet.DFault{{Dir: dir, N: rec, Kind: simnet.FCorrupt, P: int64(off), Mask: mk}}})
 							}
